@@ -123,7 +123,19 @@ def replay(cfg, events):
                         if x["k"] == "bnode":
                             known.add(x["v"])
             elif e["op"] == "update":
-                text = " ;\n".join(op_text(u) for u in e["ops"])
+                if e.get("prologues"):
+                    # every operation under a prologue of its own: operation i spells its IRIs with the prefix x: bound to the right namespace in ITS
+                    # prologue; the next operation's prologue re-binds x: elsewhere and changes the BASE (and spells its own IRIs with y:)
+                    import re as _re
+                    parts = []
+                    for i_, u in enumerate(e["ops"]):
+                        pfx = "xy"[i_ % 2]
+                        other = "yx"[i_ % 2]
+                        body = _re.sub(r"<urn:x:([A-Za-z][A-Za-z0-9]*)>", pfx + r":\1", op_text(u))
+                        parts.append("BASE <http://wrong.example/%d/> PREFIX %s: <urn:x:> PREFIX %s: <http://wrong.example/ns%d#>\n%s" % (i_, pfx, other, i_, body))
+                    text = " ;\n".join(parts)
+                else:
+                    text = " ;\n".join(op_text(u) for u in e["ops"])
                 e["text"] = text
                 try:
                     guarded(lambda: g.update(text))
